@@ -1080,6 +1080,8 @@ pub fn check_history(out: &ConnOutcome, plan: &Plan, allow_abort_forms: bool, or
 /// `input_limit`: number of input bytes the transport ever delivered (EOF offset).
 pub fn check_history_mode(out: &ConnOutcome, plan: &Plan, allow_abort_forms: bool, oracle_prefix: &str, faulted: bool, input_limit: usize, allow_partial_tail: bool) -> VResult {
     let w = &out.world;
+    vcheck!(!w.flooded, "runaway_output", "the connection wrote more than 24 MiB ({} write calls): a write loop that does not advance", w.write_calls);
+    vcheck!(!w.spun, "spin", "a single poll of the connection task made more than {} transport calls without returning (read {} bytes, eof reported: {})", SPIN_LIMIT, w.read_pos, w.eof_reported);
     for inv in &w.handler_log {
         if let Some(v) = &inv.violation { return Err(v.clone()); }
     }
@@ -1108,6 +1110,8 @@ pub fn check_history_mode(out: &ConnOutcome, plan: &Plan, allow_abort_forms: boo
     let mut er = 0usize;
     let mut expected_served = 0usize;
     let mut conn_open = true;
+    // (request index, index in exp_nonreply of its epilogue's EndRequest)
+    let mut epilogue_at: Vec<(usize, usize)> = Vec::new();
     for (i, rp) in plan.reqs.iter().enumerate() {
         if !conn_open { break; }
         // END replies owed during this request's idle/Params phase come first
@@ -1173,6 +1177,7 @@ pub fn check_history_mode(out: &ConnOutcome, plan: &Plan, allow_abort_forms: boo
                 } else {
                     exp_nonreply.push(Rec::new(0xfe, rp.id, Vec::new(), 0)); // marker: optional stream ends
                 }
+                epilogue_at.push((i, exp_nonreply.len()));
                 exp_nonreply.push(end_request(rp.id, app, proto));
                 if rp.flags & 1 == 0 { conn_open = false; }
             }
@@ -1190,6 +1195,8 @@ pub fn check_history_mode(out: &ConnOutcome, plan: &Plan, allow_abort_forms: boo
     // compare sequences (with the optional-stream-ends marker)
     let mut gi = 0usize;
     let mut k = 0usize;
+    // positions (index into `others`) at which the expected EndRequest records of the served requests were matched
+    let mut matched_at: Vec<(usize, usize)> = Vec::new(); // (index into exp_nonreply, index into others)
     // concurrent writers (C10): handler output of one request may interleave across writers; the expected list
     // was built in completion order, which is the order in which records were finished on the wire.
     while k < exp_nonreply.len() {
@@ -1209,6 +1216,7 @@ pub fn check_history_mode(out: &ConnOutcome, plan: &Plan, allow_abort_forms: boo
         if **g != *e {
             vfail!(&format!("{oracle_prefix}_output_mismatch"), "", "non-reply record #{gi}: got {} expected {}", g.short(), e.short());
         }
+        matched_at.push((k, gi));
         gi += 1;
         k += 1;
     }
@@ -1221,6 +1229,35 @@ pub fn check_history_mode(out: &ConnOutcome, plan: &Plan, allow_abort_forms: boo
         return Ok(());
     }
     vcheck!(gi == others.len(), &format!("{oracle_prefix}_extra_output"), "unexpected extra record in the log: {}", others[gi.min(others.len().saturating_sub(1))].short());
+    if !faulted {
+        // "answered - after all handler output and all pending management replies - by ... EndRequest": every query
+        // that lies before an input byte this request's handler was given (or before the terminator it saw as
+        // end-of-file, or inside the preamble) was parsed during this request, so its reply precedes the EndRequest
+        let pos_in_decoded = |oi: usize| -> usize {
+            // index in w.decoded of the oi-th non-reply record
+            let mut c = 0usize;
+            for (di, r) in w.decoded.iter().enumerate() { if !is_reply(r) { if c == oi { return di; } c += 1; } }
+            w.decoded.len()
+        };
+        let nonend_replies: Vec<&Reply> = plan.replies.iter().filter(|r| !reply_is_end(r)).collect();
+        for &(i, ke) in &epilogue_at {
+            let rp = &plan.reqs[i];
+            let inv = &w.handler_log[i];
+            let Some(&(_, oi)) = matched_at.iter().find(|(k2, _)| *k2 == ke) else { break };
+            let end_di = pos_in_decoded(oi);
+            let mut parsed_upto = rp.info.end;
+            for (sidx, got) in inv.read.iter().enumerate() {
+                if inv.eof[sidx] {
+                    if let Some(st) = rp.sm.stop[sidx] { parsed_upto = parsed_upto.max(st); }
+                } else if !got.is_empty() {
+                    if let Some(o) = model::stream_byte_end(&plan.wire, rp.info.end, rp.id, rp.role, sidx, got.len()) { parsed_upto = parsed_upto.max(o); }
+                }
+            }
+            let owed_before_end = nonend_replies.iter().filter(|r| r.rec_end <= parsed_upto).count();
+            let replies_before_end = w.decoded[..end_di.min(w.decoded.len())].iter().filter(|r| is_reply(r)).count();
+            vcheck!(replies_before_end >= owed_before_end, &format!("{oracle_prefix}_reply_after_end_request"), "EndRequest of request {i} (id {}) was written when only {replies_before_end} management replies were in the log, but {owed_before_end} queries lie before input the request had already parsed (offset {parsed_upto})", rp.id);
+        }
+    }
     Ok(())
 }
 
@@ -1341,6 +1378,8 @@ pub fn c07(cx: &mut Ctx) -> VResult {
 }
 
 fn handler_violations(out: &ConnOutcome) -> VResult {
+    vcheck!(!out.world.flooded, "runaway_output", "the connection wrote more than 24 MiB ({} write calls): a write loop that does not advance", out.world.write_calls);
+    vcheck!(!out.world.spun, "spin", "a single poll of the connection task made more than {} transport calls without returning (read {} bytes, eof reported: {})", SPIN_LIMIT, out.world.read_pos, out.world.eof_reported);
     for inv in &out.world.handler_log {
         if let Some(v) = &inv.violation { return Err(v.clone()); }
     }
@@ -1650,6 +1689,8 @@ pub fn c12(cx: &mut Ctx) -> VResult {
         }
         let site = match (rf, wf) { (RFault::EofAt(_), _) => "eof", (RFault::ErrAtCall(_), _) => "read_error", (_, WFault::ErrAtCall(_)) => "write_error", (_, WFault::FlushErrAtCall(_)) => "flush_error", _ => "zero_write" };
         // 1. termination without panic or spinning
+        vcheck!(!w.spun, "c12_spin", "fault {label}: a single poll of the connection task made more than {} transport calls without returning", SPIN_LIMIT);
+        vcheck!(!w.flooded, "runaway_output", "fault {label}: the connection wrote more than 24 MiB");
         if let Some(p) = &fo.task_panicked { vfail!("c12_panic", site, "fault {label}: connection task panicked: {p}"); }
         for inv in &w.handler_log { if let Some(v) = &inv.violation { return Err(Violation::new(&v.oracle, site, format!("fault {label}: {}", v.detail))); } }
         vcheck!(fo.end == "quiescent", "c12_spin", "fault {label}: step cap reached");
@@ -1773,6 +1814,8 @@ pub fn c12_hostile(cx: &mut Ctx) -> VResult {
     let mut out = run_conn(inner, &plan, knobs, &ConnOpts { mode: hmode, rfault: RFault::None, wfault: WFault::None, shutdown: None, strict_no_spurious: false });
     give_back(cx, &mut out);
     let w = &out.world;
+    vcheck!(!w.spun, "c12_spin", "hostile traffic: a single poll of the connection task made more than {} transport calls without returning", SPIN_LIMIT);
+    vcheck!(!w.flooded, "runaway_output", "hostile traffic: the connection wrote more than 24 MiB");
     if let Some(p) = &out.task_panicked { vfail!("c12_panic", "hostile_traffic", "connection task panicked: {p}"); }
     for inv in &w.handler_log {
         if let Some(v) = &inv.violation { if v.oracle == "panic" { return Err(v.clone()); } }
